@@ -1,7 +1,11 @@
-(* C06 — file contents round-trip exactly: write truncates, append extends, read agrees. *)
+(* C06 — file contents round-trip exactly: write truncates, append extends, read agrees.
+   Per call (Memfs/ContentFacts.v) and for ANY sequence of write_all / write_lines / append_all / append_line / append_lines
+   on one regular file (Memfs/ContentHistory.v): every call succeeds, the stored content is what the byte-vector model
+   holds, read_all returns it, and no other file's content changes. A copied file does not alias its source
+   (Memfs/NoAlias.v): after copy to a fresh path, writing either leaves the other's bytes as they are. *)
 From stdpp Require Import gmap.
 From Coq Require Import NArith.
-From RV Require Import Base.Str Base.Utf8 Path.Helpers Path.Expand Memfs.State Memfs.Ops Memfs.Step Memfs.Wf Memfs.ContentFacts.
+From RV Require Import Base.Str Base.Utf8 Path.Helpers Path.Expand Memfs.State Memfs.Ops Memfs.Step Memfs.Wf Memfs.WfMore Memfs.Walk Memfs.WalkOps Memfs.ContentFacts Memfs.ContentHistory Memfs.NoAlias.
 
 (* a successful write replaces the whole content; no other file's bytes change *)
 Theorem C06_write_replaces : forall env m s d m' p, WF m -> resolve env m s = inl p ->
@@ -31,3 +35,28 @@ Print Assumptions C06_read_all_returns.
 Theorem C06_lines_roundtrip : forall ls, Forall plain_line ls -> ls <> nil -> lines_of (join_lines ls ++ (10%N :: nil)) = ls.
 Proof. exact lines_roundtrip. Qed.
 Print Assumptions C06_lines_roundtrip.
+
+(* any sequence of content calls on one regular file = the byte-vector model *)
+Theorem C06_content_history : forall env s p f, e_file f = true -> e_link f = false -> e_dir f = false ->
+  forall os m cur, holds env s p f m cur -> Forall (content_call s) os ->
+  exists m', run_ops env m os = Some m' /\ holds env s p f m' (fold_left bv_step os cur) /\ (forall q, q <> p -> m_data m' !! q = m_data m !! q).
+Proof. exact content_history. Qed.
+Print Assumptions C06_content_history.
+
+Theorem C06_content_history_read : forall env s p f, e_file f = true -> e_link f = false -> e_dir f = false ->
+  forall os m cur, holds env s p f m cur -> Forall (content_call s) os ->
+  exists m', run_ops env m os = Some m' /\ clone_file env m' s = inl (fold_left bv_step os cur).
+Proof. exact content_history_read. Qed.
+Print Assumptions C06_content_history_read.
+
+(* a copied file does not alias its source *)
+Theorem C06_copy_no_alias : forall env m s d o sp dp db ddir r pd bytes m1,
+  WF m -> resolve env m s = inl sp -> resolve env m d = inl dp -> sp <> dp ->
+  m_ents m !! sp = Some r -> e_file r = true -> e_dir r = false -> e_link r = false -> m_data m !! sp = Some bytes ->
+  dp = db :: ddir -> m_ents m !! dp = None -> m_ents m !! ddir = Some pd -> real_dir pd ->
+  copy_op env m s d o = Done (m1, inl tt) ->
+  m_data m1 !! sp = Some bytes /\ m_data m1 !! dp = Some bytes /\
+  (forall new m2, write_all_op env m1 d new = (m2, inl tt) -> m_data m2 !! dp = Some new /\ m_data m2 !! sp = Some bytes) /\
+  (forall new m2, write_all_op env m1 s new = (m2, inl tt) -> m_data m2 !! sp = Some new /\ m_data m2 !! dp = Some bytes).
+Proof. exact copy_no_alias. Qed.
+Print Assumptions C06_copy_no_alias.
